@@ -129,7 +129,7 @@ def slice_records(n):
         ("1", 21, "ins", call("0/1", (7, 13)), call("0/1", (10, 10)), F3, {}),  # same position as record 0, other alleles
         ("3", 5, "snv", call("0/1", (13, 7)), call("1|0", (9, 11)), F3, {}),  # third contig
         ("1", 45, "snv", call("0/1", None, 30), call("0/1", None, 30), ("GT", "DP"), {}),  # no allele counts
-        ("2", 75, "snv", call("0/1", (10, 10)), call("0/1", (0, 20)), F3, {}),  # normal freq 1 (TumorBoost undefined)
+        ("2", 75, "snv", call("0/1", (0, 20)), call("0/1", (0, 20)), F3, {}),  # tumour and normal freq 1 (TumorBoost undefined)
         ("1", 65, "snv", call("0/1", (1, 19)), call("0/1", (10, 10)), F3, {}),  # t 0.95
         ("2", 5, "snv", call("0/1", (10, 10)), call("0/1", (10, 10)), ("GT",), {"info_dp": 50}),  # depth from INFO only
         ("1", 99, "sym", call("0/1", (10, 10)), call("0/1", (10, 10)), F3, {}),  # symbolic allele with END
@@ -188,15 +188,18 @@ def describe(tier):
             "{None, every name, every index}; read + load_het_snps",
             "record1": f"{len(GTS)} genotypes x {len(FORMS)} depth/count forms x "
             + ("somatic x FILTER x kind (full)" if t else "somatic x (FILTER, kind) within 1 deviation")
-            + " x min_depth {None, 20} x skip_somatic; load_het_snps x zygosity_freq {None, 0.25}",
+            + " x min_depth {None, 20} x skip_somatic; load_het_snps x zygosity_freq {None, 0.25}" + ("" if t else " on the FILTER=PASS files"),
             "record2": "tumour call x normal call under a shared FORMAT: "
             + ("full product per FORMAT" if t else "each call x a small set of partners, both roles")
             + " x min_depth {None, 20}; tumor_boost / mirrored_baf vectors; load_het_snps x zygosity_freq {None, 0.25} x tumor_boost",
-            "combo": (f"every set of <= 4 records from a {N_SLICE_T}-record slice" if t else f"every set of <= 3 records from a {N_SLICE_Q}-record slice")
-            + "; every file order (<= 3 records; sorted / reversed / rotated for 4) x 3 selector pairs x 4 filter configurations; "
+            "combo": (f"every set of <= 3 records from a {N_SLICE_T}-record slice and every set of 4 from its first {N_SLICE_Q}" if t else f"every set of <= 3 records from a {N_SLICE_Q}-record slice")
+            + "; every file order (<= 3 records; listed / reversed / rotated for 4) x selector pairs {default, (T,N)} (+ (N,T) for the listed order) "
+            "x 4 filter configurations; "
             "load_het_snps x selectors x zygosity_freq {None, 0.25} x min depth {20, None} x tumor_boost; BAF x segment tables x "
             "above_half {None, True, False} x tumor_boost; do_call x purity {None, 0.5, 0.8, 1.0}; do_segmentation {none, haar}",
-            "segment_tables": f"contig 1 cut at <= 2 of {CUTS_T if t else CUTS_Q} x contig-2 layouts {{whole, absent, split}}, plus contig-2-only and 3 contigs",
+            "segment_tables": f"contig 1 [0,100) cut at <= 2 of {CUTS_T if t else CUTS_Q} x contig-2 layouts {{whole, absent, split}}"
+            + ("" if t else " (two-cut tables: whole only)")
+            + ", plus contig-2-only and 3 contigs; above_half / tumor_boost variants on the 'whole' layouts of the paired arrays",
             "empty": "0-record files x 1..2 samples",
             "rescale": "purity {0.05..1.0} x baf {0, 0.2, 0.5, 0.7, 1, NaN}",
         },
@@ -220,7 +223,7 @@ def describe(tier):
     }
 
 
-N_SLICE_Q, N_SLICE_T = 12, 16
+N_SLICE_Q, N_SLICE_T = 12, 20
 
 
 # -------------------------------------------------------------------------------------------- cases
@@ -232,6 +235,11 @@ def cases(tier):
     for n in (1, 2, 3):
         for ped in ped_variants(n):
             yield {"check": "select", "n": n, "ped": ped}
+    n = N_SLICE_T if t else N_SLICE_Q
+    for i in range(n):  # one- and two-record tumour/normal files first: the smallest inputs of the het / BAF scopes
+        yield {"check": "combo", "n": n, "recs": [i]}
+    for combo in itertools.combinations(range(N_SLICE_Q), 2):
+        yield {"check": "combo", "n": n, "recs": list(combo)}
     for fi in range(len(FORMS)):
         for gt in GTS:
             yield {"check": "record1", "gt": gt, "form": fi, "full": t}
@@ -240,9 +248,13 @@ def cases(tier):
         for ci in range(len(calls)):
             for gt in GTS:
                 yield {"check": "record2", "fmt": list(fmt), "call": ci, "gt": gt, "full": t}
-    n = N_SLICE_T if t else N_SLICE_Q
-    for k in range(1, (4 if t else 3) + 1):
+    for k in (2, 3):
         for combo in itertools.combinations(range(n), k):
+            if k == 2 and combo[1] < N_SLICE_Q:
+                continue  # already enumerated above
+            yield {"check": "combo", "n": n, "recs": list(combo)}
+    if t:
+        for combo in itertools.combinations(range(N_SLICE_Q), 4):
             yield {"check": "combo", "n": n, "recs": list(combo)}
 
 
@@ -276,7 +288,7 @@ def sel_kwargs(sid, nid):
     return kw
 
 
-FIELDS = ["end", "somatic", "zygosity", "depth", "alt_count", "alt_freq"]
+FIELDS = ["end", "somatic", "zygosity", "depth", "alt_count", "alt_freq"]  # alt_freq after its two inputs
 NFIELDS = ["n_zygosity", "n_depth", "n_alt_count", "n_alt_freq"]
 CLAUSE = {
     "rows": "reading yields exactly one row per record that passes the depth and somatic filters asked for",
@@ -310,18 +322,27 @@ def match_rows(vcf, exp, required, optional, cols, got_rows, paired):
     dup = len(set(keys)) != len(keys)
     if missing or extra or dup:
         strip = lambda ks: sorted((k[0], k[2], k[3]) for k in ks)  # noqa: E731
-        if not dup and len(missing) == len(extra) and strip(missing) == strip(extra):
+        shifted = len(missing) == len(extra) and all(
+            (m[0], m[2], m[3]) == (x[0], x[2], x[3]) and abs(m[1] - x[1]) == 1
+            for m, x in zip(sorted(missing, key=lambda k: (k[0], k[2], k[3], k[1])), sorted(extra, key=lambda k: (k[0], k[2], k[3], k[1])))
+        )
+        if not dup and shifted and strip(missing) == strip(extra):
             probs.append(("start", "start", missing, extra))
         else:
             probs.append(("rows", "rows/" + ("duplicate" if dup else "missing" if missing and not extra else "extra" if extra and not missing else "different"), sorted(rkeys), sorted(keys)))
         return probs
     for k, r in zip(keys, got_rows):
         e = exp[ekeys[k]]
+        wrong = set()
         for f in FIELDS + (NFIELDS if paired else []):
+            base = f.replace("n_", "")
             if f not in r:
-                probs.append((f.replace("n_", ""), "column-missing/" + f, f, cols))
+                probs.append((base, "column-missing/" + base, f, cols))
             elif not M.value_ok(e[f], r[f]):
-                probs.append((f.replace("n_", ""), "field/" + f, {"record": k, f: _show(e[f])}, {f: r[f]}))
+                wrong.add(f)
+                if base == "alt_freq" and {f.replace("alt_freq", "depth"), f.replace("alt_freq", "alt_count")} & wrong:
+                    continue  # a consequence of the wrong count / depth already reported for this row
+                probs.append((base, "field/" + base, {"record": k, f: _show(e[f])}, {f: r[f]}))
     return probs
 
 
@@ -359,6 +380,9 @@ def check_read(ctx, vcf, sid, nid, min_depth, skip_somatic, got, prefix, feat, s
     probs, n = best
     pf = "paired" if n is not None else "unpaired"
     seen = set()
+    if prefix.startswith("select") and all(kpart.startswith("field/") for _c, kpart, _w, _o in probs):
+        # in the selection scope every sample column carries its own numbers: any wrong value = another sample was read
+        probs = [("pairing", "values-of-another-sample", [p[2] for p in probs][:4], [p[3] for p in probs][:4])]
     for cid, kpart, want, obs in probs:
         key = read_key(prefix, cid, kpart, pf, ff, feat)
         if key in seen:
@@ -369,16 +393,15 @@ def check_read(ctx, vcf, sid, nid, min_depth, skip_somatic, got, prefix, feat, s
 
 
 def feat_str(feat):
-    return feat if isinstance(feat, str) else "/".join(str(feat[k]) for k in ("gt", "fmt", "kind") if k in feat)
+    return feat if isinstance(feat, str) else "/".join(str(feat[k]) for k in ("gt", "fmt", "kind", "sel", "scope") if k in feat)
 
 
 def read_key(prefix, cid, kpart, pf, ff, feat):
-    """Finding classifier: the failing clause plus only the input feature that clause depends on."""
+    """Finding classifier: the failing clause plus only the input features that clause depends on."""
     if isinstance(feat, str):
         feat = {"scope": feat}
-    scope = feat.get("scope")
     parts = [prefix, kpart, pf]
-    if cid in ("rows",):
+    if cid == "rows":
         parts.append(ff)
     if cid in ("start", "end", "rows") and "kind" in feat:
         parts.append(feat["kind"])
@@ -386,8 +409,12 @@ def read_key(prefix, cid, kpart, pf, ff, feat):
         parts.append(feat["gt"])
     if cid in ("depth", "alt_count", "alt_freq") and "fmt" in feat:
         parts.append(feat["fmt"])
-    if scope:
-        parts.append(scope)
+    if cid in ("depth", "alt_count", "alt_freq", "zygosity", "somatic") and "order" in feat:
+        parts.append(feat["order"])
+    if cid == "pairing" and "sel" in feat:
+        parts.append(feat["sel"])
+    if "scope" in feat:
+        parts.append(feat["scope"])
     return "/".join(parts)
 
 
@@ -643,7 +670,7 @@ def check_het(ctx, vcf, path, sid, nid, min_depth, zf, tb, prefix, feat, sub):
     got = ctx.call(lambda: cmdutil.load_het_snps(path, **kw))
     sub = {**sub, "load_het_snps": kw}
     opts = ("zygosity_freq" if zf is not None else "genotypes") + ("+tumor_boost" if tb else "")
-    fs = feat_str(feat)
+    fs = feat.get("gt", "") if isinstance(feat, dict) else feat
     if isinstance(got, Exc):
         ctx.violation(HET_CLAUSE, f"{prefix}/raises/{got.key}/{opts}", expected="a table", observed=got, sub=sub)
         return None
@@ -660,11 +687,11 @@ def check_het(ctx, vcf, path, sid, nid, min_depth, zf, tb, prefix, feat, sub):
         req, opt = M.filter_rows(exp, min_depth, True, paired)
         got_paired = "n_alt_freq" in cols
         if rows and got_paired != paired:
-            problems.append((f"{prefix}/pairing/{opts}", {"paired": paired}, cols))
+            problems.append((f"{prefix}/pairing", {"paired": paired}, cols))
             continue
         kmap = {rec_key(vcf["records"][exp[i]["rec"]]): i for i in req + opt}
         if any(k not in kmap for k in keys) or len(set(keys)) != len(keys):
-            problems.append((f"{prefix}/kept-set/unfiltered-or-duplicate/{opts}/" + ("depth" if min_depth else "nodepth"), sorted(kmap), keys))
+            problems.append((f"{prefix}/kept-set/unfiltered-or-duplicate/" + ("depth" if min_depth else "nodepth"), sorted(kmap), keys))
             continue
         got_set = frozenset(kmap[k] for k in keys)
         admissible, unique = [], True
@@ -677,7 +704,7 @@ def check_het(ctx, vcf, path, sid, nid, min_depth, zf, tb, prefix, feat, sub):
             admissible += outs
         unique = len(set(admissible)) == 1
         if got_set not in admissible:
-            problems.append((f"{prefix}/kept-set/{opts}/{'paired' if paired else 'unpaired'}/{fs}", [sorted(a) for a in dict.fromkeys(admissible)], sorted(got_set)))
+            problems.append(("/".join(x for x in (prefix, "kept-set", opts, "paired" if paired else "unpaired", fs) if x), [sorted(a) for a in dict.fromkeys(admissible)], sorted(got_set)))
             continue
         ctx.trace()
         # values stay attached to their records
@@ -689,7 +716,7 @@ def check_het(ctx, vcf, path, sid, nid, min_depth, zf, tb, prefix, feat, sub):
                 fields.append("alt_freq")
             for f in fields:
                 if f not in r or not M.value_ok(e[f], r[f]):
-                    bad = bad or (f"{prefix}/field/{f}/{opts}", {"record": k, f: _show(e[f])}, {f: r.get(f)})
+                    bad = bad or (f"{prefix}/field/{f.replace('n_', '')}", {"record": k, f: _show(e[f])}, {f: r.get(f)})
             if tb:
                 t, nn = M._single(e["alt_freq"]), M._single(e["n_alt_freq"])
                 b = M.tumor_boost(t, nn) if t is not None and nn is not None else None
@@ -778,7 +805,7 @@ def run_select(case, ctx, tmp):
     pfeat = "no-pedigree" if not ped else ("pedigree" if len(ped) == 1 else "two-pedigrees")
     for sid in idents:
         for nid in idents:
-            sfeat = ("sid-" + _ident_kind(sid)) + "/" + ("nid-" + _ident_kind(nid))
+            sfeat = ("sample_id-given" if sid is not None else "sample_id-default") + "+" + ("normal_id-given" if nid is not None else "no-normal_id")
             sub = {"sample_id": sid, "normal_id": nid}
             sel = M.choose_samples(vcf, sid, nid)
             ctx.state(("select", n, ped, sid, nid), nontrivial=bool(sel and any(x is not None for x in sel[1])))
@@ -786,8 +813,8 @@ def run_select(case, ctx, tmp):
                 ctx.stratum("selector-outside-claim")
                 continue
             got = do_read(ctx, path, sid, nid, None, False)
-            check_read(ctx, vcf, sid, nid, None, False, got, "select/read", f"{n}-samples/{pfeat}/{sfeat}", sub)
-            check_het(ctx, vcf, path, sid, nid, 20, None, False, "select/load_het_snps", f"{n}-samples/{pfeat}/{sfeat}", sub)
+            check_read(ctx, vcf, sid, nid, None, False, got, "select/read", {"sel": pfeat}, {**sub, "selectors": sfeat})
+            check_het(ctx, vcf, path, sid, nid, 20, None, False, "select/load_het_snps", {"sel": pfeat}, sub)
             ctx.stratum("selection-" + pfeat)
             ctx.stratum("selection-paired" if None not in sel[1] else ("selection-unpaired" if sel[1] == {None} else "selection-normal-open"))
     ctx.sample("select", {"samples": names, "pedigree": ped, "records": 2})
@@ -805,7 +832,7 @@ def run_record1(case, ctx, tmp):
         rec = mkrec("1", 101, kind, [{"gt": gt, "ad": ad, "dp": dp}], fmt, somatic=som, filt=filt, info_dp=idp)
         vcf = {"samples": ["S0"], "pedigree": [], "contigs": CONTIGS, "records": [rec]}
         M.write_vcf(path, vcf)
-        feat = {"gt": gt_class(gt), "fmt": fname.split("/")[0] + ("+missing" if "." in fname.split("/")[1] else ""), "kind": kind}
+        feat = {"gt": gt_class(gt), "fmt": fname.split("/")[0], "kind": kind}
         sub = {"vcf": vcf}
         for md, ss in FILTER_CONFIGS:
             got = do_read(ctx, path, None, None, md, ss)
@@ -861,8 +888,8 @@ def run_record2(case, ctx, tmp):
             rec = mkrec("1", 101, "snv", [tc, nc], fmt, info_dp=idp)
             vcf = {"samples": ["T", "N"], "pedigree": [], "contigs": CONTIGS, "records": [rec]}
             M.write_vcf(path, vcf)
-            feat = {"gt": gt_class(gt), "fmt": ":".join(fmt) + ("+missing" if "." in name else ""), "kind": "snv", "scope": "enumerated-" + ("tumour" if role == "t" else "normal")}
-            sub = {"vcf": vcf}
+            feat = {"gt": gt_class(gt), "fmt": ":".join(fmt), "kind": "snv"}
+            sub = {"vcf": vcf, "enumerated": "tumour" if role == "t" else "normal"}
             for md, ss in FILTER_CONFIGS[:2]:
                 got = do_read(ctx, path, "T", "N", md, ss)
                 r = check_read(ctx, vcf, "T", "N", md, ss, got, "read2", feat, {**sub, "min_depth": md, "skip_somatic": ss})
@@ -899,8 +926,8 @@ def run_combo(case, ctx, tmp):
     idxs = case["recs"]
     path = os.path.join(tmp, "m.vcf")
     base_sub = {"records": idxs}
-    feat = {"scope": f"{len(idxs)}-records"}
     genomic = sorted(idxs, key=lambda i: (CHROM_ORDER[slice_[i]["chrom"]], slice_[i]["pos"], i))
+    feat = {"order": "sorted-file" if list(idxs) == genomic else "unsorted-file"}
     # (1) every file order x selectors x filters: rows stay attached to their coordinates
     for order in file_orders(idxs):
         vcf = {"samples": ["T", "N"], "pedigree": [], "contigs": CONTIGS, "records": [slice_[i] for i in order]}
@@ -910,7 +937,7 @@ def run_combo(case, ctx, tmp):
             for md, ss in FILTER_CONFIGS:
                 got = do_read(ctx, path, sid, nid, md, ss)
                 sub = {**base_sub, "order": order, "sample_id": sid, "normal_id": nid, "min_depth": md, "skip_somatic": ss}
-                r = check_read(ctx, vcf, sid, nid, md, ss, got, "read", {"scope": f"{len(idxs)}-records/{ofeat}"}, sub)
+                r = check_read(ctx, vcf, sid, nid, md, ss, got, "read", {"order": ofeat}, sub)
                 nontrivial = r is not None and len(r[3]) < len(order)
                 ctx.state(("combo-read", order, sid, nid, md, ss), nontrivial=nontrivial or nid is not None)
                 ctx.stratum("read-" + ofeat)
@@ -943,7 +970,7 @@ def run_combo(case, ctx, tmp):
                 for tb in (False, True) if paired else (False,):
                     if swapped and (md is None or tb):
                         continue
-                    res = check_het(ctx, vcf, path, sid, nid, md, zf, tb, "load_het_snps", feat, sub)
+                    res = check_het(ctx, vcf, path, sid, nid, md, zf, tb, "load_het_snps", {}, sub)
                     ctx.state(("combo-het", idxs, sid, nid, zf, md, tb), nontrivial=res is not None and bool(res[2]))
                     if res is None or swapped or md is None:
                         continue
